@@ -301,6 +301,7 @@ func runC14(c *Ctx) {
 	runC14Reflect(c)
 	runC14Round3(c)
 	runC14Round4(c)
+	runC14NoMarshalInDecode(c)
 }
 
 func nonDebugRefs(refs []ssa.Instruction) []ssa.Instruction {
